@@ -150,6 +150,7 @@ pub fn oracle_ledger(c: &mut Case, when: &str) {
     }
 }
 
+#[allow(dead_code)]
 fn result_str(r: &Result<Result<Built<crate::mtrans::ModelTransport>, virtio_drivers::Error>, String>) -> String {
     match r {
         Ok(Ok(_)) => "ok".into(),
@@ -224,6 +225,48 @@ fn use_driver(c: &mut Case, b: &mut Built<crate::mtrans::ModelTransport>, st: &s
     }
     c.tag(format!("uses={}", n));
     fb
+}
+
+/// every oracle is fed a hand-made good and a hand-made bad trace
+pub fn oracle_selftest(id: String) -> Case {
+    let mut c = Case::new(id);
+    let d0 = hal::DMA_BASE;
+    let d1 = hal::DMA_BASE + hal::DMA_STRIDE;
+    let qs = Tok::QueueSet { q: 0, size: 16, desc: d0, drv: d0 + 256, dev: d1 };
+    let init = vec![Tok::Status(0), Tok::Status(3), Tok::ReadFeatures, Tok::WriteFeatures(0), Tok::Status(11), qs.clone(), Tok::Status(15)];
+    let de = |k| Tok::Dealloc { k: Some(k), pages: 1, ap: false };
+    let mut expect = |c: &mut Case, name: &str, tail: Vec<Tok>, resets: bool, bad: bool| {
+        let mut t = init.clone();
+        t.extend(tail);
+        let mut probe = Case::new("probe");
+        oracle_quiesced(&mut probe, &t, resets);
+        if probe.oracle_failures.is_empty() == bad {
+            c.fail(format!("oracle self-test `{}`: expected {} but the oracle said {:?}", name, if bad { "a failure" } else { "silence" }, probe.oracle_failures));
+        }
+    };
+    expect(&mut c, "dealloc while live", vec![de(0)], true, true);
+    expect(&mut c, "dealloc after queue_unset", vec![Tok::QueueUnset(0), de(0), de(1)], true, false);
+    expect(&mut c, "dealloc after reset", vec![Tok::Status(0), de(1)], true, false);
+    expect(&mut c, "dealloc after transport drop", vec![Tok::Dropped, de(1)], true, false);
+    expect(&mut c, "dealloc after transport drop without reset", vec![Tok::Dropped, de(1)], false, true);
+    expect(&mut c, "posted buffer freed while live", vec![Tok::FreePosted(3)], true, true);
+    expect(&mut c, "posted buffer freed after unset", vec![Tok::QueueUnset(0), Tok::FreePosted(3)], true, false);
+    // handshake oracle
+    let mut hs = |c: &mut Case, name: &str, t: Vec<Tok>, bad: bool| {
+        let mut probe = Case::new("probe");
+        oracle_handshake(&mut probe, &t, 0, true);
+        if probe.oracle_failures.is_empty() == bad {
+            c.fail(format!("oracle self-test `{}`: expected {} but the oracle said {:?}", name, if bad { "a failure" } else { "silence" }, probe.oracle_failures));
+        }
+    };
+    hs(&mut c, "good handshake", init.clone(), false);
+    hs(&mut c, "notify before DRIVER_OK", vec![Tok::Status(0), Tok::Status(3), Tok::ReadFeatures, Tok::WriteFeatures(0), Tok::Status(11), qs.clone(), Tok::Notify(0), Tok::Status(15)], true);
+    hs(&mut c, "queue after DRIVER_OK", vec![Tok::Status(0), Tok::Status(3), Tok::ReadFeatures, Tok::WriteFeatures(0), Tok::Status(11), Tok::Status(15), qs.clone()], true);
+    hs(&mut c, "features after FEATURES_OK", vec![Tok::Status(0), Tok::Status(3), Tok::Status(11), Tok::ReadFeatures, Tok::WriteFeatures(0), qs.clone(), Tok::Status(15)], true);
+    hs(&mut c, "unoffered feature accepted", vec![Tok::Status(0), Tok::Status(3), Tok::ReadFeatures, Tok::WriteFeatures(1 << 28), Tok::Status(11), qs.clone(), Tok::Status(15)], true);
+    hs(&mut c, "no reset first", vec![Tok::Status(3), Tok::ReadFeatures, Tok::WriteFeatures(0), Tok::Status(11), qs.clone(), Tok::Status(15)], true);
+    c.tag("oracle-selftest");
+    c
 }
 
 pub struct Scenario {
@@ -336,9 +379,13 @@ pub fn run(ctx: &Ctx) -> (Vec<Case>, String, bool, BTreeMap<String, String>) {
             }
         }
     }
+    let selftest = oracle_selftest(ctx.case_id("C09", "oracle-selftest", 0));
     let mut cases = crate::runner::par_cases(ctx, "C09", "model", scen.len(), |i, id| one_case(&scen[i], id, ctx.case_rng("model", i)));
     let (mm, mmio_rule) = crate::c08_mmio::run_mmio_c09(ctx);
     cases.extend(mm);
+    if ctx.wants(&selftest.id) {
+        cases.push(selftest);
+    }
     let rule = format!(
         "model transport + ledger HAL: 11 drivers x (modern, legacy) x feature words {{0, all ones, VERSION_1|INDIRECT, ACCESS_PLATFORM|EVENT_IDX, random}} x (DMA fault at allocation k = 0..10, i.e. every allocation of the run and beyond; config space missing / too short / 9p zero-length tag; transport max_queue_size in {{0,1,2,4,8,16,31}}; net receive buffers too short) and drop after construction / after a short random usage history with an obliging device; compared: ordered log of status writes, feature/queue calls, dma_alloc/dma_dealloc with region ids, queue_unset, transport drop, frees of heap blocks holding buffers still shared with the device; non-trivial = at least one DMA region was allocated. {}",
         mmio_rule
